@@ -834,3 +834,28 @@ func init() {
 	mutant("closed-client-redials", "client-pool-shape", "client.go", "	if cl.closed {\n		return\n	}\n", "")
 	mutant("retry-loop-unbounded", "client-pool-shape", "client.go", "		if attempt == roundTripAttempts-1 {", "		if attempt == roundTripAttempts-1 && !streamed {")
 }
+
+func init() {
+	mutant("handshake-error-inverted", "server-construction", "server.go", "	if err := sc.Handshake(); err != nil {\n		return err\n	}\n\n	return sc.Serve()", "	if err := sc.Handshake(); err == nil {\n		return err\n	}\n\n	return sc.Serve()")
+	mutant("decoder-starts-with-no-table", "server-construction", "server.go", "	sc.dec.Reset()\n", "")
+	mutant("connection-without-logger", "server-construction", "server.go", "	if sc.logger == nil {\n		sc.logger = logger\n	}\n", "")
+	mutant("no-default-header-list-limit", "config-reaches-enforcement", "server.go", "		sc.MaxHeaderListSize = DefaultMaxHeaderListSize\n", "")
+	mutant("receive-window-never-set", "config-reaches-enforcement", "server.go", "	sc.maxWindow = 1 << 22\n", "")
+}
+
+func init() {
+	mutant("previous-is-the-newest", "previous-stream-lookup", "streams.go", "	cnt := 0\n	for i := len(strms) - 1", "	cnt := 1\n	for i := len(strms) - 1")
+	mutant("previous-of-another-origin", "previous-stream-lookup", "streams.go", "		if strms[i].origType == frameType {\n			if cnt != 0 {", "		if strms[i].origType != frameType {\n			if cnt != 0 {")
+	mutant("previous-without-passing-one", "previous-stream-lookup", "streams.go", "			if cnt != 0 {\n				return strms[i]\n			}", "			if cnt == 0 {\n				return strms[i]\n			}")
+}
+
+func init() {
+	mutant("table-emptied-for-another-stream", "previous-stream-lookup", "streams.go", "(*strms)[0].ID() == id {", "(*strms)[0].ID() != id {")
+	mutant("first-of-another-origin", "previous-stream-lookup", "streams.go", "		if strm.origType == frameType {\n			return strm", "		if strm.origType != frameType {\n			return strm")
+	mutant("previous-skips-the-newest", "previous-stream-lookup", "streams.go", "for i := len(strms) - 1; i >= 0; i-- {", "for i := len(strms) - 2; i >= 0; i-- {")
+}
+
+func init() {
+	mutant("header-parsed-despite-short-read", "result-with-error-untouched", "frameHeader.go", "	header, err := br.Peek(DefaultFrameSize)\n	if err != nil {\n		return -1, err\n	}\n", "	header, err := br.Peek(DefaultFrameSize)\n")
+	mutant("socket-used-despite-dial-error", "result-with-error-untouched", "conn.go", "		c, err = net.DialTCP(\"tcp\", nil, tcpAddr)\n		if err != nil {\n			return nil, err\n		}\n", "		c, err = net.DialTCP(\"tcp\", nil, tcpAddr)\n")
+}
